@@ -167,6 +167,19 @@ def _exact(e, env, salt):
                 return _exact(ex, env, salt)
         raise ValueError("Piecewise without a true branch")
     if isinstance(e, sp.core.function.AppliedUndef):
+        if f.__name__ == "ITE_":
+            return _exact(e.args[1] if _truth(e.args[0], env, salt) else e.args[2], env, salt)
+        if f.__name__ == "SliceLen":
+            vals = []
+            for a in e.args:
+                if a.is_Symbol and a.name == "None_":
+                    vals.append(None)
+                else:
+                    v = _exact(a, env, salt)
+                    if not (v.is_real() and v.re.denominator == 1):
+                        raise ValueError("non-integer slice bound")
+                    vals.append(int(v.re))
+            return GQ(len(range(*slice(vals[0], vals[1], vals[2]).indices(vals[3]))))
         args = [_exact(a, env, salt) for a in e.args]
         return _opaque_value(f.__name__, args, salt)
     if e is sp.true or e is sp.false:
@@ -207,7 +220,8 @@ def evaluate(expr, salt=0, env=None):
     expr = sp.sympify(expr)
     env = env or {}
     try:
-        if isinstance(expr, (sp.logic.boolalg.Boolean, sp.core.relational.Relational)):
+        if isinstance(expr, (sp.logic.boolalg.BooleanFunction, sp.logic.boolalg.BooleanAtom,
+                             sp.core.relational.Relational)) and not expr.is_Symbol:
             return sp.true if _truth(expr, env, salt) else sp.false
         return _exact(expr, env, salt).to_sympy()
     except _Inexact:
